@@ -1,5 +1,6 @@
 import AdfObdd.Parser7
 import AdfObdd.CliModesProofs
+import AdfObdd.ServerParseLink
 /-! # C08 — the parser accepts the documented syntax faithfully and rejects malformed text whole
 
 Model (`ParserProofs`, `Parser2`, `Parser4`, `Parser6`; namespace `ParserM`): the nom combinators of
@@ -140,7 +141,7 @@ theorem reject_odd_quotes (t : List Char) (h : t.count '"' % 2 = 1) : parse t = 
 /-! ## Rejected text: the CLI produces no answer
 
 `CliM.runText` (CliModes.lean) is the binary on the TEXT of the file (all three arms). The web
-service's counterpart is in C16. -/
+service's counterpart follows below (`web_…`) and in C16. -/
 
 /-- **neither … produce an answer, CLI part**: a text the parser refuses makes every arm of the
 binary, with every flag, exit with the non-zero status 101 and print nothing -/
@@ -153,6 +154,71 @@ theorem cli_no_answer_for_rejected_text {T : Type} (W : CliM.World T) (fuel : Na
 theorem cli_no_answer_unbalanced {T : Type} (W : CliM.World T) (fuel : Nat) (i : CliM.Inv) (t : List Char)
     (h : balanced t = false) : CliM.runText W fuel i t = CliM.rejected :=
   (cli_no_answer_for_rejected_text W fuel i t (reject_unbalanced t h)).1
+
+/-! ## Rejected text: the web service produces no answer (review 2 item 2, second half)
+
+`ServerAdf.conditions` - what the service's parse task runs for BOTH parsing strategies - calls the same
+`ParserM.parseFile` as `ParserM.parse`; `SrvC.conditions_of_parse_none` is the link. -/
+
+/-- **neither … produce an answer, web part (1): the parse function.** A text the parser refuses makes the
+parse function of the service - the driver's `libEnv o`, the service with the modelled hybrid arm `hybEnv`,
+and `hybEnvF F` for every search bound - answer `Error("ADF could not be parsed, …")` for `Naive` AND
+`Hybrid` parsing -/
+theorem web_parse_rejects_rejected_text {T : Type} (o : SrvC.Oracle) (Lf : Nat → Bio.Lib T) (dumpf : Nat → T → List Node)
+    (pg : ServerM.Parsing) (code : String) (h : parse code.toList = none) :
+    (SrvC.libEnv o).parse pg code = .error .parseError ∧ (SrvC.hybEnv Lf dumpf).parse pg code = .error .parseError ∧
+    ∀ F, (SrvC.hybEnvF F Lf dumpf).parse pg code = .error .parseError :=
+  SrvC.parse_rejected o Lf dumpf pg code h
+
+/-- **web part (2): the parse task stores the error, a solve is refused.** When the parse task of a refused
+text writes, the addressed document gets `Error` in `adf` and in `acs_per_strategy.parse_only`; and for a
+document in that state every `PUT /adf/{name}/solve` is answered `400 … could not be parsed` (no solve task
+is spawned) -/
+theorem web_task_stores_error_for_rejected_text (o : SrvC.Oracle) (db : ServerM.Db String SrvC.SHash ServerAdf.SAdf ServerAdf.SRes)
+    (j n : Nat) (t : ServerM.TaskRec String ServerAdf.SAdf) (code : String) (pg : ServerM.Parsing)
+    (h : parse code.toList = none)
+    (ht : ServerM.nthOf j n db.tasks = some t) (hin : t.input = .parse code pg)
+    (hlive : t.blockingDone = true ∧ t.written = false)
+    (p : ServerM.Problem String ServerAdf.SAdf ServerAdf.SRes)
+    (hp : db.problems.find? (ServerM.isProb t.username t.name) = some p) :
+    (ServerM.dbEv (SrvC.libEnv o) db (.write j n)).problems.find? (ServerM.isProb t.username t.name) =
+      some { p with adf := .error .parseError, parseOnly := .error .parseError } ∧
+    ∀ (st : SrvC.SState) (jar : Nat) (s : ServerM.Strategy), st.sess jar = some t.username →
+      st.db.problems.find? (ServerM.isProb t.username t.name) =
+        some { p with adf := .error .parseError, parseOnly := .error .parseError } →
+      (ServerM.step (SrvC.libEnv o) st ⟨jar, .solve t.name s⟩).2 = ⟨400, .keep, .msg (.couldNotParse .parseError)⟩ := by
+  have hc := SrvC.conditions_of_parse_none code h
+  refine ⟨?_, fun st jar s hs hf => ?_⟩
+  · have herr := SrvC.libEnv_parse_error_iff o code _ hc pg
+    simp only [ServerM.dbEv, ht, hlive.1, hlive.2, Bool.not_false, Bool.and_self, if_true, ServerM.exec, hin,
+      ServerM.taskWrite, herr]
+    rw [ServerM.find_updFirst_same _ _ (fun x hx => by rw [ServerM.isProb_apply]; exact hx), hp]
+    rfl
+  · simp only [ServerM.step, ServerM.stepT, ServerM.handler, ServerM.hSolve, hs, ServerM.run, ServerM.exec, hf,
+      ServerM.reply]
+
+/-- **web part (3): no answer is EVER produced** (every history of the service, any interleaving of users and
+task events): in every reachable state a document under an untainted key (no stale write of finding D9 since
+the key was last cleared) whose code the parser refuses carries no framework and no result under any strategy -/
+theorem web_no_answer_for_rejected_text (o : SrvC.Oracle) (es : List (ServerM.Event String))
+    (p : ServerM.Problem String ServerAdf.SAdf ServerAdf.SRes)
+    (hp : p ∈ (ServerM.runAll (SrvC.libEnv o) {} es).1.db.problems)
+    (hn : ServerM.taintRun (SrvC.libEnv o) {} (fun _ _ => false) es p.username p.name = false)
+    (h : parse p.code.toList = none) :
+    (∀ a, p.adf ≠ .some a) ∧ ∀ s res, p.res.get s ≠ .some res :=
+  SrvC.rejected_code_never_answered (SrvC.libEnv o) es p hp hn .parseError
+    (SrvC.parse_rejected (T := Nat) o Bio.ttLib Bio.ttDump p.parsing p.code h).1
+
+/-- instance: each rejection test of this file implies the service stores an error -/
+theorem web_rejects_unbalanced (o : SrvC.Oracle) (pg : ServerM.Parsing) (code : String) (h : balanced code.toList = false) :
+    (SrvC.libEnv o).parse pg code = .error .parseError :=
+  (web_parse_rejects_rejected_text (T := Nat) o Bio.ttLib Bio.ttDump pg code (reject_unbalanced _ h)).1
+
+-- non-vacuity by evaluation (the parser on a string literal does not reduce in the kernel): `s(a.` is refused
+-- by the parser model, and both parsing strategies of the executable service answer the parse error
+#guard (parse "s(a.".toList).isNone
+#guard (match (SrvC.libEnv {}).parse .naive "s(a.", (SrvC.hybEnv Bio.ttLib Bio.ttDump).parse .hybrid "s(a." with
+  | .error .parseError, .error .parseError => true | _, _ => false)
 
 /-! ## Non-vacuity -/
 
@@ -220,3 +286,7 @@ example : endsWithDot ex2 = true ∧ balanced ex2 = true ∧ arityOK ex2 = true 
 example : parse ['s','(','"','(','(','"',')','.'] = some (PState.ofFacts [Fact.stmt ['(','(']]) := by decide
 
 end C08
+
+#print axioms C08.web_parse_rejects_rejected_text
+#print axioms C08.web_task_stores_error_for_rejected_text
+#print axioms C08.web_no_answer_for_rejected_text
